@@ -69,7 +69,8 @@ def _in_child(fn, args, what='task'):
     import pickle
     r, w = os.pipe()
     sys.stdout.flush()
-    pid = os.fork()
+    from .cleanroom import _fork_retry
+    pid = _fork_retry()
     if pid == 0:
         os.close(r)
         try:
